@@ -144,6 +144,13 @@ impl<P: Package, VS: VersionSet, M: Eq + Clone + Debug + Display> Incompatibilit
         Self {
             package_terms: if set2 == VS::empty() {
                 SmallMap::One([(package.clone(), Term::Positive(versions.clone()))])
+            } else if package == p2 {
+                // A dependency on the package itself: the versions outside of `set2` can never be
+                // selected. (Two entries with the same key would not be a valid map.)
+                SmallMap::One([(
+                    package.clone(),
+                    Term::Positive(versions.intersection(&set2.complement())),
+                )])
             } else {
                 SmallMap::Two([
                     (package.clone(), Term::Positive(versions.clone())),
@@ -180,6 +187,10 @@ impl<P: Package, VS: VersionSet, M: Eq + Clone + Debug + Display> Incompatibilit
             return None;
         }
         let (p1, p2) = self_pkgs;
+        // A dependency of a package on itself has no separate dependency term to compare.
+        if p1 == p2 {
+            return None;
+        }
         let dep_term = self.get(p2);
         // The dependency range for p2 must be the same in both case
         // to be able to merge multiple p1 ranges.
